@@ -13,12 +13,17 @@
       output lands in the buyer's output;
     * `completed_flow_pays_estimated_fee` — a completed flow's transaction passes the fee-quote test on its
       estimated final form (C11.estimate_ge_signed relates that to the signed size);
-    * `specific_ordinal_lands_in_inscription` — InscribeSpecificOrdinal puts the chosen satoshi in the inscription.
+    * `specific_ordinal_lands_in_inscription` — InscribeSpecificOrdinal puts the chosen satoshi in the inscription;
+    * `seller_input_accepted_in_completed_listing` — end to end: a seller's signature that verified for the one-input
+      listing makes the interpreter model accept the seller's input of the completed transaction (layout + digest
+      survival + `sigDigest` = specification + the P2PKH acceptance theorem of C04).
 -/
 import GoBT.Ord.Model
 import GoBT.Props.C02
 import GoBT.Props.C10
 import GoBT.Props.C20Insc
+import GoBT.Props.C04
+import GoBT.Interp.SigDigest
 namespace GoBT.C20
 open GoBT GoBT.Fee GoBT.Ord GoBT.Sighash
 
@@ -132,6 +137,53 @@ theorem seller_signature_survives (H : Hash) (pstx tx : Tx) (listed : UTXO) (utx
   apply C02.anyonecanpay_independent H tx pstx 1 0 0xC3 sc amt (by decide) (by rw [htv, hv]) (by rw [htl, hl])
   · simp [hti, hin]
   · simp [hto, hout]
+
+/-- **The seller's input of a completed listing is accepted by the interpreter** — end to end.  The seller listed a P2PKH
+    output (paying `h`, worth `amt`) and signed input 0 of the one-input listing `pstx` with SINGLE|ANYONECANPAY|FORKID; if
+    that signature `sig` verifies under `pk` for the listing's digest (which is what the library's signing path produced),
+    then in *every* completed transaction `tx` that `AcceptOrdinalSaleListing` builds from it — whatever the buyer's funding
+    outputs, scripts and fee quote — `Engine.Execute` accepts input 1 (the seller's input at its new index) against the
+    listed output, for every flag word with the FORKID flag. -/
+theorem seller_input_accepted_in_completed_listing (H : Interp.Crypto) (flags : Nat)
+    (pstx tx : Tx) (listed : UTXO) (utxos : List UTXO) (buyer dummy chg : Bytes) (fq : FeeQuote)
+    (sig pk h : Bytes) (amt : Nat)
+    (hv : pstx.version = 1) (hl : pstx.lockTime = 0)
+    (hacc : acceptListing pstx listed utxos buyer dummy chg fq = .ok tx)
+    (htxid : ∀ sin, pstx.inputs = [sin] → sin.prevTxID.length ≠ 0)
+    (hH : ∀ b, (H.sha256 (H.sha256 b)).length = 32)
+    (hs : 1 ≤ sig.length ∧ sig.length ≤ 74) (hp : 2 ≤ pk.length ∧ pk.length ≤ 75) (hh : h.length = 20)
+    (hkey : H.ripemd160 (H.sha256 pk) = h)
+    (c : Interp.Ctx) (hc : c = ⟨tx, 1, { sats := amt, script := Interp.P2PKH.lockBytes h }⟩)
+    (hflags : Interp.hasFlag (Interp.mkEnv H flags (some c)).flags Interp.fCleanStack = true →
+              Interp.hasFlag (Interp.mkEnv H flags (some c)).flags Interp.fBip16 = true)
+    (hfork : Interp.hasFlag (Interp.mkEnv H flags (some c)).flags Interp.fForkID = true)
+    (hht : Interp.checkHashTypeEncoding (Interp.mkEnv H flags (some c)) 0xC3 = none)
+    (hse : Interp.checkSignatureEncoding (Interp.mkEnv H flags (some c)) sig = none)
+    (hpe : Interp.checkPubKeyEncoding (Interp.mkEnv H flags (some c)) pk = none)
+    (hpk : H.pubKeyOk pk = true)
+    (hver : H.verify (Interp.hasFlag (Interp.mkEnv H flags (some c)).flags Interp.fStrictEnc ||
+                      Interp.hasFlag (Interp.mkEnv H flags (some c)).flags Interp.fDERSig) sig
+              (H.sha256 (H.sha256 (bip143Spec (fun b => H.sha256 (H.sha256 b)) pstx 0 0xC3 (Interp.P2PKH.lockBytes h) amt)))
+              pk = some true) :
+    (Interp.execute H flags (some c) (Interp.P2PKH.unlockBytes (sig ++ [0xC3]) pk) (Interp.P2PKH.lockBytes h)).1 = .accept := by
+  obtain ⟨sin, sout, u0, rest, hin, hout, _, hti, _, _, _, _⟩ :=
+    acceptListing_layout pstx tx listed utxos buyer dummy chg fq hacc
+  have hlast : ((sig ++ [0xC3]).getLast?.getD 0).toNat = 0xC3 := by simp
+  have hdrop : (sig ++ [0xC3]).dropLast = sig := by simp
+  have hsurv := seller_signature_survives (fun b => H.sha256 (H.sha256 b)) pstx tx listed utxos buyer dummy chg fq
+    (Interp.P2PKH.lockBytes h) amt hv hl hacc
+  have henvH : (Interp.mkEnv H flags (some c)).H = H := by unfold Interp.mkEnv; rfl
+  have hidx : c.tx.inputs[c.idx]? = some sin := by subst hc; simp [hti]
+  have hdig := Interp.sigDigest_forkid (Interp.mkEnv H flags (some c)) c (Interp.P2PKH.lockBytes h) 0xC3 sin
+    (by rw [henvH]; exact hH) hidx (htxid sin hin) (by decide)
+  rw [henvH] at hdig
+  have hspec : bip143Spec (fun b => H.sha256 (H.sha256 b)) c.tx c.idx 0xC3 (Interp.P2PKH.lockBytes h) c.prevOut.sats =
+      bip143Spec (fun b => H.sha256 (H.sha256 b)) pstx 0 0xC3 (Interp.P2PKH.lockBytes h) amt := by
+    subst hc; exact hsurv
+  rw [hspec] at hdig
+  exact C04.p2pkh_forkid_signature_accepted H flags c (sig ++ [0xC3]) pk h _ hflags hfork (by rw [hlast]; decide)
+    (by simp only [List.length_append, List.length_cons, List.length_nil]; omega) hp hh hkey
+    (by rw [hlast]; exact hht) (by rw [hdrop]; exact hse) hpe (by rw [hlast]; exact hdig) hpk (by rw [hdrop]; exact hver)
 
 /-! ### first-in-first-out routing -/
 
